@@ -25,6 +25,61 @@ theorem MCtx.depth_le_path (c : MCtx H L v T) : ∀ vp ∈ v.inner, vp.depth ≤
   have := h1.length_le
   omega
 
+/-! ### the verified routes are strictly ascending and prefix-free -/
+
+theorem bitsLt_snoc : ∀ (q : List Bool), bitsLt (q ++ [false]) (q ++ [true]) = true
+  | [] => rfl
+  | x :: xs => by simp [bitsLt, bitsLt_snoc xs]
+
+/-- order and incomparability of two routes -/
+def RouteLt (a b : VPath VH) : Prop :=
+  bitsLt a.route b.route = true ∧ ¬ a.route <+: b.route ∧ ¬ b.route <+: a.route
+
+theorem PTree.vpaths_sorted : ∀ (T : PTree Node VH) (pos : List Bool) (off : Nat), T.Aligned pos →
+    (T.vpaths pos off).Pairwise RouteLt
+  | .tip _ _ _, _, _, _ => by simp [PTree.vpaths]
+  | .fork seg cs l r, pos, off, hal => by
+    simp only [PTree.vpaths]
+    refine List.pairwise_append.2 ⟨PTree.vpaths_sorted l _ _ hal.1, PTree.vpaths_sorted r _ _ hal.2, ?_⟩
+    intro a ha b hb
+    obtain ⟨_, _, hpa⟩ := PTree.vpaths_route l _ _ hal.1 a ha
+    obtain ⟨_, _, hpb⟩ := PTree.vpaths_route r _ _ hal.2 b hb
+    obtain ⟨qa, hqa⟩ := hpa
+    obtain ⟨qb, hqb⟩ := hpb
+    have hnp : ¬ (pos ++ seg ++ [false]) <+: (pos ++ seg ++ [true]) := by simp
+    refine ⟨?_, ?_, ?_⟩
+    · exact bl_extend _ _ _ _ (bitsLt_snoc (pos ++ seg)) hnp ⟨qa, hqa⟩ ⟨qb, hqb⟩
+    · rw [← hqa, ← hqb]; exact not_prefix_of_diverge (pos ++ seg) qa qb false
+    · rw [← hqa, ← hqb]; exact not_prefix_of_diverge (pos ++ seg) qb qa true
+
+theorem MCtx.routes_sorted (c : MCtx H L v T) : v.inner.Pairwise RouteLt := by
+  rw [c.tree.inner]; exact PTree.vpaths_sorted T [] 0 c.tree.al
+
+/-- `route = path()[..depth]` -/
+theorem MCtx.route_eq (c : MCtx H L v T) : ∀ vp ∈ v.inner, vp.terminal.path.take vp.depth = vp.route := by
+  intro vp hvp
+  rw [c.tree.inner] at hvp
+  obtain ⟨h1, h2, _⟩ := PTree.vpaths_route T [] 0 c.tree.al vp hvp
+  rw [← h2]; exact (bl_prefix_iff_take _ _).1 h1
+
+/-- a key covered by a verified terminal extends its route -/
+theorem MCtx.route_prefix_of_cover (c : MCtx H L v T) (t : VPath VH) (ht : t ∈ v.inner) (k : Key)
+    (h : k.take t.depth = t.terminal.path.take t.depth) : t.route <+: k := by
+  rw [c.route_eq t ht] at h
+  rw [← h]; exact List.take_prefix _ _
+
+/-- keys covered by different terminals are ordered like the terminals -/
+theorem MCtx.cover_order (c : MCtx H L v T) (i j : Nat) (ti tj : VPath VH) (hi : v.inner[i]? = some ti)
+    (hj : v.inner[j]? = some tj) (hij : i < j) (k1 k2 : Key)
+    (h1 : k1.take ti.depth = ti.terminal.path.take ti.depth)
+    (h2 : k2.take tj.depth = tj.terminal.path.take tj.depth) : bitsLt k1 k2 = true := by
+  obtain ⟨hil, hie⟩ := List.getElem?_eq_some_iff.1 hi
+  obtain ⟨hjl, hje⟩ := List.getElem?_eq_some_iff.1 hj
+  have := (List.pairwise_iff_getElem.1 c.routes_sorted) i j hil hjl hij
+  rw [hie, hje] at this
+  exact bl_extend _ _ _ _ this.1 this.2.1 (c.route_prefix_of_cover ti (List.mem_of_getElem? hi) k1 h1)
+    (c.route_prefix_of_cover tj (List.mem_of_getElem? hj) k2 h2)
+
 /-- invariant of the `for (i, (key, op))` loop after the ops `done` -/
 structure DInv (H : Hasher Node VH) (L : Nat) (v : VerifiedMulti Node VH) (A : Nat → List (Key × Option VH))
     (done : List (Key × Option VH)) (st : UState Node VH) : Prop where
@@ -38,7 +93,7 @@ structure DInv (H : Hasher Node VH) (L : Nat) (v : VerifiedMulti Node VH) (A : N
   cover : ∀ i t, v.inner[i]? = some t → ∀ o ∈ A i, o.1.take t.depth = t.terminal.path.take t.depth
   last : match st.lastTi with
     | none => done = [] ∧ st.nextPending = none
-    | some ui => st.nextPending.getD 0 ≤ ui ∧ ui < v.inner.length ∧ done ≠ [] ∧
+    | some ui => st.nextPending.getD 0 ≤ ui ∧ ui < v.inner.length ∧ st.working ≠ [] ∧
         ∀ t, v.inner[ui]? = some t → ∀ o ∈ st.working, o.1.take t.depth = t.terminal.path.take t.depth
 
 /-- ingesting the pending terminals up to and including the updated one -/
@@ -103,7 +158,7 @@ theorem pairwise_snoc_of_last (done : List (Key × Option VH)) (x : Key × Optio
   subst hb
   have hne : done ≠ [] := by intro e; rw [e] at ha; cases ha
   have hl : done.getLast?.map (·.1) = some (done.getLast hne).1 := by
-    rw [List.getLast?_eq_getLast hne]; rfl
+    rw [List.getLast?_eq_some_getLast hne]; rfl
   have hlt := h _ hl
   rcases pairwise_getLast done hne hs a ha with h1 | h1
   · rw [h1]; exact hlt
@@ -146,11 +201,14 @@ theorem updateStep_eq (st : UState Node VH) (key : Key) (op : Option VH) :
 theorem updateStep_spec (c : MCtx H L v T) (A : Nat → List (Key × Option VH)) (done : List (Key × Option VH))
     (st : UState Node VH) (hinv : DInv H L v A done st) (key : Key) (op : Option VH) (hk : key.length = L) :
     (updateStep H L v st key op).isPanic = false ∧
-    ∀ st', updateStep H L v st key op = .ok st' → ∃ A', DInv H L v A' (done ++ [(key, op)]) st' := by
+    (∀ st', updateStep H L v st key op = .ok st' → ∃ A', DInv H L v A' (done ++ [(key, op)]) st') ∧
+    (ordBad st.lastKey key = false → ∀ nti,
+      findTerminalFrom key (v.inner.drop (st.lastTi.getD 0)) (st.lastTi.getD 0) = .ok nti →
+      ∃ st', updateStep H L v st key op = .ok st') := by
   rw [updateStep_eq]
   by_cases hord : ordBad st.lastKey key = true
   · rw [if_pos hord]
-    exact ⟨rfl, fun st' h => by cases h⟩
+    exact ⟨rfl, fun st' h => (by cases h), fun h => (by rw [h] at hord; cases hord)⟩
   · rw [if_neg hord]
     unfold stepBody
     have hsorted' : (done ++ [(key, op)]).Pairwise KeyLt := by
@@ -173,7 +231,7 @@ theorem updateStep_spec (c : MCtx H L v T) (A : Nat → List (Key × Option VH))
       exact ⟨by rw [hk]; exact c.depthLe t htm, c.depth_le_path t htm⟩
     cases hf : findTerminalFrom key (v.inner.drop (st.lastTi.getD 0)) (st.lastTi.getD 0) with
     | panic s => rw [hf] at hfnp; cases hfnp
-    | err e => exact ⟨rfl, fun st' h => by cases h⟩
+    | err e => exact ⟨rfl, fun st' h => (by cases h), fun _ nti h => (by cases h)⟩
     | ok nti =>
       obtain ⟨hge, tn, htn, hcont⟩ := findTerminalFrom_ok key _ _ _ hf
       rw [List.getElem?_drop] at htn
@@ -197,7 +255,7 @@ theorem updateStep_spec (c : MCtx H L v T) (A : Nat → List (Key × Option VH))
           rw [hdone] at this
           exact (List.append_eq_nil_iff.1 this).2
         simp only [sameTi, if_true]
-        refine ⟨rfl, ?_⟩
+        refine ⟨rfl, ?_, fun _ _ _ => ⟨_, rfl⟩⟩
         intro st' h
         injection h with h
         subst h
@@ -214,7 +272,7 @@ theorem updateStep_spec (c : MCtx H L v T) (A : Nat → List (Key × Option VH))
         by_cases hsame : ui = nti
         · subst hsame
           simp only [sameTi, beq_self_eq_true, if_true]
-          refine ⟨rfl, ?_⟩
+          refine ⟨rfl, ?_, fun _ _ _ => ⟨_, rfl⟩⟩
           intro st' h
           injection h with h
           subst h
@@ -238,7 +296,7 @@ theorem updateStep_spec (c : MCtx H L v T) (A : Nat → List (Key × Option VH))
               hinv.tail hnpui huilt hws hwl hcovw
           rw [ingestRange_as A _ ui _ st.working hinv.tail huilt hnpui, hs1]
           simp only [Outcome.ok_bind, getIdx_some _ _ _ _ ht, hadv, hhct, Outcome.pure_eq]
-          refine ⟨rfl, ?_⟩
+          refine ⟨rfl, ?_, fun _ _ _ => ⟨_, rfl⟩⟩
           intro st' h
           injection h with h
           subst h
@@ -287,7 +345,7 @@ theorem updateLoop_spec (c : MCtx H L v T) : ∀ (ops : List (Key × Option VH))
   | cons o rest ih =>
     intro A done st hinv hl
     obtain ⟨k, w⟩ := o
-    obtain ⟨hnp, hok⟩ := updateStep_spec c A done st hinv k w (hl (k, w) (by simp))
+    obtain ⟨hnp, hok, _⟩ := updateStep_spec c A done st hinv k w (hl (k, w) (by simp))
     simp only [updateLoop]
     cases hstep : updateStep H L v st k w with
     | panic s => rw [hstep] at hnp; cases hnp
@@ -301,20 +359,113 @@ theorem updateLoop_spec (c : MCtx H L v T) : ∀ (ops : List (Key × Option VH))
       obtain ⟨A', hA'⟩ := h2 st' h
       exact ⟨A', by simpa using hA'⟩
 
+/-! ### sorted in-scope ops are not rejected -/
+
+theorem findTerminalFrom_complete (key : Key) : ∀ (ts : List (VPath VH)) (i : Nat),
+    (∀ t ∈ ts, t.depth ≤ key.length ∧ t.depth ≤ t.terminal.path.length) →
+    (∃ t ∈ ts, key.take t.depth = t.terminal.path.take t.depth) →
+    ∃ j, findTerminalFrom key ts i = .ok j
+  | [], _, _, h => by obtain ⟨t, ht, _⟩ := h; cases ht
+  | t :: rest, i, hd, h => by
+    unfold findTerminalFrom
+    rw [terminalContains_ok t key (hd t (by simp)).1 (hd t (by simp)).2]
+    simp only [Outcome.ok_bind]
+    by_cases hc : key.take t.depth = t.terminal.path.take t.depth
+    · have : (key.take t.depth == t.terminal.path.take t.depth) = true := by simp [hc]
+      simp only [this, if_true]
+      exact ⟨i, rfl⟩
+    · have : (key.take t.depth == t.terminal.path.take t.depth) = false := beq_false_of_ne hc
+      simp only [this, Bool.false_eq_true, if_false]
+      apply findTerminalFrom_complete key rest (i + 1) (fun t ht => hd t (List.mem_cons_of_mem _ ht))
+      obtain ⟨t', ht', hc'⟩ := h
+      rcases List.mem_cons.1 ht' with h1 | h1
+      · subst h1; exact absurd hc' hc
+      · exact ⟨t', h1, hc'⟩
+
+/-- a key above everything seen so far and covered by some verified terminal passes the order check and
+the terminal search -/
+theorem step_no_err (c : MCtx H L v T) (A : Nat → List (Key × Option VH)) (done : List (Key × Option VH))
+    (st : UState Node VH) (hinv : DInv H L v A done st) (key : Key) (op : Option VH) (hk : key.length = L)
+    (hsorted : (done ++ [(key, op)]).Pairwise KeyLt)
+    (hscope : ∃ (j : Nat) (t : VPath VH), v.inner[j]? = some t ∧ key.take t.depth = t.terminal.path.take t.depth) :
+    ordBad st.lastKey key = false ∧
+    ∃ nti, findTerminalFrom key (v.inner.drop (st.lastTi.getD 0)) (st.lastTi.getD 0) = .ok nti := by
+  obtain ⟨_, _, hcross⟩ := List.pairwise_append.1 hsorted
+  constructor
+  · rw [hinv.lastKey]
+    by_cases hd : done = []
+    · subst hd; rfl
+    · rw [List.getLast?_eq_some_getLast hd]
+      have := hcross _ (List.getLast_mem hd) (key, op) (by simp)
+      simp only [Option.map, ordBad, bitsLe]
+      have h2 : bitsLt (done.getLast hd).1 key = true := this
+      rw [h2]; rfl
+  · apply findTerminalFrom_complete
+    · intro t ht
+      have htm : t ∈ v.inner := List.mem_of_mem_drop ht
+      exact ⟨by rw [hk]; exact c.depthLe t htm, c.depth_le_path t htm⟩
+    · obtain ⟨j, t, hj, hcov⟩ := hscope
+      refine ⟨t, ?_, hcov⟩
+      cases hlt : st.lastTi with
+      | none => simp only [Option.getD_none, List.drop_zero]; exact List.mem_of_getElem? hj
+      | some ui =>
+        have hl := hinv.last
+        rw [hlt] at hl
+        obtain ⟨_, huilt, hwne, hcovw⟩ := hl
+        simp only [Option.getD_some]
+        obtain ⟨o, ho⟩ := List.exists_mem_of_ne_nil _ hwne
+        have hod : o ∈ done := by rw [← hinv.flat]; exact List.mem_append_right _ ho
+        have hlt' : bitsLt o.1 key = true := hcross o hod (key, op) (by simp)
+        have hui : v.inner[ui]? = some v.inner[ui] := List.getElem?_eq_getElem huilt
+        have hge : ui ≤ j := by
+          rcases Nat.lt_or_ge j ui with h | h
+          · have := c.cover_order j ui t _ hj hui h key o.1 hcov (hcovw _ hui o ho)
+            rw [bl_asymm _ _ hlt'] at this; cases this
+          · exact h
+        apply List.mem_of_getElem? (i := j - ui)
+        rw [List.getElem?_drop]
+        have : ui + (j - ui) = j := by omega
+        rw [this]; exact hj
+
+theorem updateLoop_ok (c : MCtx H L v T) : ∀ (ops : List (Key × Option VH)) (A : Nat → List (Key × Option VH))
+    (done : List (Key × Option VH)) (st : UState Node VH), DInv H L v A done st →
+    (∀ o ∈ ops, o.1.length = L) →
+    (∀ o ∈ ops, ∃ (j : Nat) (t : VPath VH), v.inner[j]? = some t ∧ o.1.take t.depth = t.terminal.path.take t.depth) →
+    (done ++ ops).Pairwise KeyLt →
+    ∃ st', updateLoop H L v ops st = .ok st' := by
+  intro ops
+  induction ops with
+  | nil => intro A done st _ _ _ _; exact ⟨st, rfl⟩
+  | cons o rest ih =>
+    intro A done st hinv hl hsc hsorted
+    obtain ⟨k, w⟩ := o
+    have hsorted1 : (done ++ [(k, w)]).Pairwise KeyLt := by
+      have : done ++ (k, w) :: rest = (done ++ [(k, w)]) ++ rest := by simp
+      rw [this] at hsorted
+      exact (List.pairwise_append.1 hsorted).1
+    obtain ⟨hord, nti, hnti⟩ := step_no_err c A done st hinv k w (hl (k, w) (by simp)) hsorted1 (hsc (k, w) (by simp))
+    obtain ⟨_, hok, hex⟩ := updateStep_spec c A done st hinv k w (hl (k, w) (by simp))
+    obtain ⟨st1, hst1⟩ := hex hord nti hnti
+    obtain ⟨A1, hinv1⟩ := hok st1 hst1
+    obtain ⟨st', hst'⟩ := ih A1 (done ++ [(k, w)]) st1 hinv1 (fun o ho => hl o (List.mem_cons_of_mem _ ho))
+      (fun o ho => hsc o (List.mem_cons_of_mem _ ho)) (by simpa using hsorted)
+    exact ⟨st', by simp only [updateLoop, hst1, Outcome.ok_bind]; exact hst'⟩
+
 /-- **`verify_update` on an accepted multi-proof**: no panic site is reachable, and an `ok` verdict on a
 non-empty list of ops is the single-path `verifyUpdate` run on the reconstructed path proofs, terminal
 `i` carrying the ops `A i`: the caller's ops, strictly ascending, split by covering terminal. -/
 theorem multiVerifyUpdate_spec (c : MCtx H L v T) (ops : List (Key × Option VH))
     (hl : ∀ o ∈ ops, o.1.length = L) :
     (multiVerifyUpdate H L v ops).isPanic = false ∧
-    ∀ r, multiVerifyUpdate H L v ops = .ok r → ops ≠ [] →
+    (∀ r, multiVerifyUpdate H L v ops = .ok r → ops ≠ [] →
       ∃ A, SafeA L v A ∧ opsUpTo A v.inner.length = ops ∧ ops.Pairwise KeyLt ∧
         (∀ i t, v.inner[i]? = some t → ∀ o ∈ A i, o.1.take t.depth = t.terminal.path.take t.depth) ∧
-        r = verifyUpdate H v.root (T.upds H A [] [] 0) := by
+        r = verifyUpdate H v.root (T.upds H A [] [] 0)) ∧
+    (∀ st, updateLoop H L v ops {} = .ok st → ∃ r, multiVerifyUpdate H L v ops = .ok r) := by
   unfold multiVerifyUpdate
   by_cases hemp : ops.isEmpty = true
   · rw [if_pos hemp]
-    refine ⟨rfl, ?_⟩
+    refine ⟨rfl, ?_, fun _ _ => ⟨_, rfl⟩⟩
     intro r _ hne
     exact absurd (List.isEmpty_iff.1 hemp) hne
   · rw [if_neg hemp]
@@ -324,7 +475,7 @@ theorem multiVerifyUpdate_spec (c : MCtx H L v T) (ops : List (Key × Option VH)
     obtain ⟨hnp, hok⟩ := updateLoop_spec c ops _ [] _ hinv0 hl
     cases hloop : updateLoop H L v ops {} with
     | panic s => rw [hloop] at hnp; cases hnp
-    | err e => exact ⟨rfl, fun r h => by cases h⟩
+    | err e => exact ⟨rfl, fun r h => (by cases h), fun st h => (by cases h)⟩
     | ok st =>
       obtain ⟨A, hinv⟩ := hok st hloop
       simp only [List.nil_append] at hinv
@@ -371,7 +522,7 @@ theorem multiVerifyUpdate_spec (c : MCtx H L v T) (ops : List (Key × Option VH)
           · simp only [hiu, if_false]; exact (hinv.tail i h1).symm
         rw [hcongr, hsf]
         simp only [Outcome.ok_bind, Outcome.pure_eq]
-        refine ⟨rfl, ?_⟩
+        refine ⟨rfl, ?_, fun _ _ => ⟨_, rfl⟩⟩
         intro r h _
         injection h with h
         refine ⟨_, hsafe', ?_, hinv.sorted, ?_, ?_⟩
@@ -404,5 +555,22 @@ theorem multiVerifyUpdate_spec (c : MCtx H L v T) (ops : List (Key × Option VH)
             exact hinv.cover i t' hi o ho
         · rw [← h, ← hsf']
           rfl
+
+end Nomt
+
+namespace Nomt
+variable {Node VH : Type} [DecidableEq Node] [DecidableEq VH] {H : Hasher Node VH}
+  {L : Nat} {v : VerifiedMulti Node VH} {T : PTree Node VH}
+
+/-- strictly ascending ops that are all in scope of the multi-proof get an `ok` verdict -/
+theorem multiVerifyUpdate_ok (c : MCtx H L v T) (ops : List (Key × Option VH))
+    (hl : ∀ o ∈ ops, o.1.length = L) (hsorted : ops.Pairwise KeyLt)
+    (hscope : ∀ o ∈ ops, ∃ (j : Nat) (t : VPath VH), v.inner[j]? = some t ∧ o.1.take t.depth = t.terminal.path.take t.depth) :
+    ∃ r, multiVerifyUpdate H L v ops = .ok r := by
+  have hinv0 : DInv H L v (fun _ => []) [] ({} : UState Node VH) :=
+    ⟨rfl, fun i t _ => safe_nil L t, fun _ _ => rfl, List.Pairwise.nil, (by intro o ho; cases ho), rfl, rfl,
+      (by intro i t _ o ho; cases ho), ⟨rfl, rfl⟩⟩
+  obtain ⟨st, hst⟩ := updateLoop_ok c ops _ [] _ hinv0 hl hscope (by simpa using hsorted)
+  exact (multiVerifyUpdate_spec c ops hl).2.2 st hst
 
 end Nomt
